@@ -774,12 +774,12 @@ def run(ctx):
     walks += [(init, p) for p in paths]
     n_ex = len(walks)
     # random walks
-    for _ in range(ctx.scale(1200, 20000)):
+    for _ in range(ctx.scale(1000, 20000)):
         walks.append(gen_walk(ctx.rng, 200))
     solos = [gen_solo(ctx.rng, ctx.rng.randrange(5, 40)) for _ in range(ctx.scale(400, 8000))]
     texts = ["", "a", "--1", "a--1", "a--b--12", "a---5", "a--1--x", "x--", "a--12b", "a-1", "0--0", "ab--007"] + [
         gen_text(ctx.rng) for _ in range(ctx.scale(1500, 20000))]
-    ctx.extra["gen_s"] = round(time.time() - t0, 1)
+    ctx.extra["c17_generation_s"] = round(time.time() - t0, 1)
 
     wres = sres = tres = None
     if ctx.model:
@@ -802,7 +802,7 @@ def run(ctx):
             r = FIXNewOrderSingle.clord_root(t)
             if FIXNewOrderSingle.clord_root("%s--%d" % (r, 7)) != r:
                 ctx.fail({"clord_root": t}, "clord_root(%r--7) is not %r" % (r, r), None)
-    ctx.extra["wall_harness_s"] = round(time.time() - t0, 1)
+    ctx.extra["c17_harness_s"] = round(time.time() - t0, 1)
 
 
 def search(ctx, cases):
